@@ -155,6 +155,7 @@ func GenStatic(t *rapid.T) Case {
 // GenRefresh draws an autorefresh scenario
 func GenRefresh(t *rapid.T) Case {
 	c := Case{Sub: "refresh", V6: rapid.Bool().Draw(t, "v6")}
+	c.Spell = rapid.SampledFrom([]int{0, 0, 1, 2, 3}).Draw(t, "spell")
 	c.Lines = noPad(genLines(t, c.V6, false, 1))
 	n := rapid.IntRange(2, 6).Draw(t, "nrewrites")
 	for i := 0; i < n; i++ {
@@ -194,6 +195,7 @@ func GenDual(t *rapid.T) Case {
 	c.Lines = genLines(t, false, false, 1)
 	c.Lines6 = genLines(t, true, false, 1)
 	c.V6First = rapid.Bool().Draw(t, "v6first")
+	c.Spell = rapid.SampledFrom([]int{0, 0, 0, 1, 2, 3}).Draw(t, "spell")
 	if rapid.IntRange(0, 2).Draw(t, "dual-refresh") == 0 {
 		// files that are rewritten in place have a fixed length: no very long lines
 		c.Lines, c.Lines6 = noPad(c.Lines), noPad(c.Lines6)
